@@ -484,6 +484,31 @@ def main():
                     chk.disagreement('delay', {'mode': mode, 'time': repr(d)}, repr(pause), model)
             t.requests.append(('u.emit', ['light'] + Case(mode, {'time': d}).driver_regs(), cb))
 
+    # ---- 5b. a duration given in one unit mode and transmitted after one or two unit switches:
+    # it is still the time the script named (seconds in logical and rgb units, ms in raw units)
+    carried = 0
+    for first in uc.MODES:
+        for chain in [(b,) for b in uc.MODES if b != first] + \
+                [(b, c) for b in uc.MODES for c in uc.MODES if b != first and c != b]:
+            for d in (2, 0.25, 1500):
+                for cmd, what in (('set "A"', 'set_color'), ('on "A"', 'set_power')):
+                    text = 'units {} hue 1 saturation 2 brightness 3 red 1 green 2 blue 3 kelvin 2700 duration {} {} {}\n'.format(
+                        first, uc.num_text(d), ' '.join('units ' + m for m in chain), cmd)
+                    events, _, finished, _ = t.bench.run(text)
+                    chk.count()
+                    carried += 1
+                    want = F(d) if first == 'raw' else F(d) * 1000
+                    got = [f[2] for f in uc.event_fields('light', events or [])]
+                    if not finished or len(got) != 1 or abs(F(got[0]) - want) > HALF:
+                        chk.violation('duration-changed-by-unit-switch',
+                                      '{}: transmitted duration {} ms, the script named {} ms'.format(
+                                          text.strip(), got, float(want)),
+                                      {'script': text, 'population': uc.POP, 'transmitted': got,
+                                       'exact_ms': float(want)})
+                    else:
+                        chk.nontrivial_case(('carried', first, chain, d, what))
+    t.stats['durations_carried_over_unit_switches'] = carried
+
     # ---- 6. clamp helpers directly
     from bardolph.lib import param_helper as P
     pv = [0, 1, -1, 0.5, 1.5, 2.5, 254.5, 255, 255.5, 256, 65534.5, 65535, 65535.5, 65536,
